@@ -347,7 +347,7 @@ def run(ctx):
     reported = set()
     for r in recs:
         t = V[r.ln]
-        info = kv(t[3] if len(t) > 3 else "")
+        info = kv(" ".join(t[2:]))
         kinds_hist[r.kind] += 1
         strat_hist["cut%s/piv%s" % (r.field("cut"), r.field("piv"))] += 1
         key = hashlib.sha256((r.prob + r.cs + r.solved.split(" ok ")[0] + r.tree).encode()).hexdigest()
